@@ -5,8 +5,24 @@
 let show_rr r =
   Printf.sprintf "%d,%d,%d,%s" (int_of_z r.rr_priority) (int_of_z r.rr_weight) (int_of_z r.rr_port)
     (match cstr r.rr_target with Some s -> hex_of_zs s | None -> "UNTERMINATED")
+(* "?" -> fingerprint of the regenerated constants / guards the model was extracted with, so that the
+   check can tell that this executable belongs to the source tree under test *)
+let bit b = if b then "1" else "0"
+let zi = z_of_int
+let fingerprint () =
+  let ints l = String.concat "," (List.map (fun z -> string_of_int (int_of_z z)) l) in
+  let tri f = String.concat "" (List.map (fun a -> bit (f (zi a) (zi 5))) [4; 5; 6]) in
+  let sw = String.concat "" (List.concat_map (fun cp -> List.concat_map (fun cw -> List.concat_map (fun np ->
+             List.map (fun nw -> bit (srv_swap (zi cp) (zi cw) (zi np) (zi nw))) [1; 2]) [1; 2]) [1; 2]) [1; 2]) in
+  Printf.sprintf "consts %s ovf=%s ovfcmp=%s ptr=%s swap=%s"
+    (ints [mESSAGE_HEADER_LEN; mESSAGE_RESPONSE; mESSAGE_T_SRV; mESSAGE_C_IN; mAX_DOMAIN_LEN; xMPP_DOMAIN_NOT_FOUND;
+           xMPP_DOMAIN_FOUND; hdr_octet2_off; hdr_octet3_off; hdr_qdcount_off; hdr_ancount_off; qr_shift; qr_mask;
+           rcode_mask; q_tail; rr_type_off; rr_class_off; rr_rdlength_off; rr_fixed_len; srv_prio_off; srv_weight_off;
+           srv_port_off; srv_target_off; label_mask; label_tag; pointer_tag; pointer_mask; pointer_shift])
+    (ints ovf_check_offsets) (tri ovf_check) (tri pointer_guard) sw
 let () = iter_lines (fun line ->
   if line = "" then "" else
+  if line = "?" then fingerprint () else
   match lookup (zs_of_hex line) with
   | LOOB -> "OOB"
   | LFuel -> "FUEL"
